@@ -142,6 +142,13 @@ fn metamorphic_case(ctx: &Ctx, rep: &mut Report, case: u64, g: &mut Sm64) {
             ("x -> a x + b", base.mapv(|x| a2 * x + b2)),
             ("chain permutation", Array3::from_shape_fn((c, n, p), |(i, t, j)| base[[perm[i], t, j]])),
             ("time reversal", Array3::from_shape_fn((c, n, p), |(i, t, j)| base[[i, n - 1 - t, j]])),
+            ("column-major storage", {
+                use ndarray::ShapeBuilder;
+                let mut f = Array3::<f32>::zeros((c, n, p).f());
+                f.assign(&base);
+                f
+            }),
+            ("axis-permuted view of a draws-major buffer", Array3::from_shape_fn((n, c, p), |(t, i, j)| base[[i, t, j]]).permuted_axes([1, 0, 2])),
         ]
     };
     for (name, arr) in transforms {
